@@ -33,8 +33,9 @@ from vlib import Ctx, run_tlc, build_harness, run_bin, parse_jsonl, SPEC
 
 D = os.path.join(SPEC, "mutants")
 
-DEVS = ["SlicePanicReq", "NoColonPanicResp", "ClaimedLengthAlloc", "ParseSizePanic", "HostQuotePanic",
-        "ConfRecursionUnbounded", "JsonDepthUnchecked", "Utf8Unwrap", "EmptyInputIndex"]
+# sensitivity configs MC_Mutants_dev_<name>.cfg (ClaimedLengthAlloc: one per site family - request, response, frame)
+DEVS = ["SlicePanicReq", "NoColonPanicResp", "ClaimedLengthAlloc_req", "ClaimedLengthAlloc_resp", "ClaimedLengthAlloc_ws",
+        "ParseSizePanic", "HostQuotePanic", "ConfRecursionUnbounded", "JsonDepthUnchecked", "Utf8Unwrap", "EmptyInputIndex"]
 SUP_BUGS = [("MC_ParseSup_bug1.cfg", "BlameLastSent"), ("MC_ParseSup_bug2.cfg", "NoSkipAfterDeath"),
             ("MC_ParseSup_bug3.cfg", "ReapBeforeDrain"), ("MC_ParseSup_bug4.cfg", "BlameAfterSelfExit")]
 MUT_ACTIONS = ["EnumShort", "EnumMut", "Parse"]
@@ -117,7 +118,7 @@ def run(tier, replay):
     # ---- 1./2. TLC on the models, generation: all started now, consumed as the pipeline needs them -----------------
     f_mc = pool.submit(run_tlc, "MC_Mutants.tla", "MC_Mutants_thorough.cfg" if thorough else "MC_Mutants_quick.cfg", D,
                        workers=6, coverage=True, timeout=3000, work_id="c03-mc", heap="4g")
-    gens = ["Gen_Mutants_thoroughA.cfg", "Gen_Mutants_thoroughB.cfg"] if thorough else ["Gen_Mutants_quick.cfg"]
+    gens = ["Gen_Mutants_thoroughA.cfg", "Gen_Mutants_thoroughB.cfg"] if thorough else ["Gen_Mutants_quickA.cfg", "Gen_Mutants_quickB.cfg"]
     f_gen = [pool.submit(run_tlc, "MC_Mutants.tla", g, D, workers=4, timeout=3000, work_id="c03-gen%d" % i, heap="4g")
              for i, g in enumerate(gens)]
 
@@ -342,7 +343,8 @@ def run(tier, replay):
     pool.shutdown()
 
     ctx.cov["rule"] = ("inputs = families enumerated by TLC from Mutants.tla (all strings of <=%d alphabet symbols per parser, every prefix of every "
-                       "seed, single-site mutants, WebSocket length codes, nesting) + seeded random bytes / token soup / multi-site mutants / deep / big; "
+                       "seed, single-site mutants, WebSocket length codes, nesting; the second generation config uses one symbol less) + seeded random bytes / "
+                       "token soup / multi-site mutants / deep / big; "
                        "each run as one parser call per delivery (evaluations = calls, every one judged by TLC). distinct_nontrivial = distinct "
                        "(parser, bytes) inputs that are derived from a seed message (prefix, mutant, nest, wslen, rand-mut, deep, big, witness) or were "
                        "accepted (outcome ok) by the parser, i.e. that get past the first token; rejected short strings and random bytes are not counted"
